@@ -24,7 +24,7 @@ SCALAR_TAGS = [None, None, None, "!", "!local", "!local/x-y", "tag:yaml.org,2002
                "!!", "!a!b", "tag:yaml.org,2002:python/name:a.b", "!日本",
                "tag:example.com,2000:a+b;c=d&e@f$g~h*i'j(k)l/m?n:o-p_q.r", "!a+b;c=d&e@f$g~h*i'j(k)l", "tag:example.com,2000:Az09+~*",
                # flow indicators: allowed verbatim, must be escaped in a shorthand
-               "!a,b[c]", "tag:example.com,2000:p[q],r"]
+               "!a,b[c]", "tag:example.com,2000:p[q],r", "!AZaz09", "tag:example.com,2000:AZaz09"]
 SEQ_TAGS = [None, None, None, "!", "!local", "tag:example.com,2000:[s]", "tag:yaml.org,2002:seq", "tag:yaml.org,2002:set", "tag:example.com,2000:s",
             "tag:example.com,2000:\xe9", "!my-seq", "tag:yaml.org,2002:python/tuple"]
 MAP_TAGS = [None, None, None, "!", "!local", "tag:example.com,2000:m,n", "tag:yaml.org,2002:map", "tag:yaml.org,2002:omap", "tag:example.com,2000:m",
